@@ -100,3 +100,44 @@ for label, fac in FACTORIES.items():
                    "evaluates-to-factory-result": "implies(returned and result is not None, py(lambda r: SAME(EVAL(r), FAC()), result))"},
              clause_props={"raises-nothing": ["C08"], "evaluates-to-factory-result": ["C08"], "modifies-nothing": ["C20"]},
              notes=[f"default factory {label}"])
+
+
+# ---------------------------------------------------------------------------------------------- name sanitizer (C19)
+FS = "code_tools/name_sanitizer.py"
+HOSTILE_NAMES = ["x y", "a²b", 'M"; import os #', "1st", "Ünï", "a.b[c]", "M\nN", "$M", "{M}", "class", "M'", "\\",
+                 "None", "True", "import", "a①", "a·b", "a٠", "²", "a\U0001d7d8", "model_loader_x y", "_", "a b\tc", "a-b", "ab‍", "á"]
+
+
+def _sanitizer_scenarios(names):
+    def gen(mod):
+        out = []
+        for n in names:
+            def factory(n=n):
+                return mod.BuiltinNameSanitizer.sanitize, {"self": mod.BuiltinNameSanitizer(), "name": n}
+            out.append((repr(n), factory))
+        return out
+    return gen
+
+
+def _d_strings(mod):
+    from pyvc.universe import N_CELLS, rep
+    return [rep(i) for i in range(N_CELLS) if isinstance(rep(i), str)]
+
+
+SAN_POST = {
+    "raises-nothing": "returned",
+    # the result is used as (a part of) the name of a generated `def`: it must be an identifier, whatever the input was
+    "identifier": ("implies(returned, py(lambda n, r: type(r) is str and (r == '' if n == '' else r.isidentifier() and not ISKW(r)), "
+                   "name, result))"),
+}
+contract(FS, "BuiltinNameSanitizer.sanitize", name=f"{FS}:BuiltinNameSanitizer.sanitize[D]", props=["C19"],
+         params={"self": ("constf", lambda m: m.BuiltinNameSanitizer()), "name": "D"}, prefer_shadow=True,
+         requires=["py(lambda n: type(n) is str, name)"], post=SAN_POST, consts={"ISKW": __import__("keyword").iskeyword},
+         scenarios=lambda mod: _sanitizer_scenarios(_d_strings(mod))(mod), cover=["returned"],
+         clause_props={"raises-nothing": ["C19"], "identifier": ["C19"], "modifies-nothing": ["C20"]})
+for i, hn in enumerate(HOSTILE_NAMES):
+    contract(FS, "BuiltinNameSanitizer.sanitize", name=f"{FS}:BuiltinNameSanitizer.sanitize[hostile{i}]", props=["C19"],
+             params={"self": ("constf", lambda m: m.BuiltinNameSanitizer()), "name": ("const", hn)}, post=SAN_POST,
+             consts={"ISKW": __import__("keyword").iskeyword},
+             scenarios=_sanitizer_scenarios([hn]), notes=[f"hostile name {hn!r}"],
+             clause_props={"raises-nothing": ["C19"], "identifier": ["C19"], "modifies-nothing": ["C20"]})
